@@ -279,7 +279,7 @@ impl CompactionWorker {
                 "Compaction thread found an immutable memtable to compact. Proceeding with \
                 memtable compaction."
             );
-            CompactionWorker::compact_memtable(db_state, db_fields_guard);
+            CompactionWorker::compact_memtable(db_state, db_fields_guard, true);
             return;
         }
 
@@ -450,6 +450,9 @@ impl CompactionWorker {
     /**
     Performs a compaction routine on the immutable memtable.
 
+    `allow_placement_below_level_zero` must be false when this is called while a table compaction
+    is running. The new table file is then added to level 0.
+
     # Panics
 
     An immutable memtable must exist if this method is called.
@@ -457,6 +460,7 @@ impl CompactionWorker {
     fn compact_memtable(
         db_state: &PortableDatabaseState,
         db_fields_guard: &mut MutexGuard<GuardedDbFields>,
+        allow_placement_below_level_zero: bool,
     ) {
         assert!(db_fields_guard.maybe_immutable_memtable.is_some());
 
@@ -464,11 +468,22 @@ impl CompactionWorker {
         let mut change_manifest = VersionChangeManifest::default();
         let base_version = db_fields_guard.version_set.get_current_version();
         let immutable_memtable = db_fields_guard.maybe_immutable_memtable.clone().unwrap();
+        /*
+        The level for the new table file is picked by checking for overlaps with the files of the
+        base version. The output files of a table compaction that is still running are not in any
+        version, so a flush that happens in the middle of a table compaction stays at level 0
+        where overlapping files are allowed.
+        */
+        let maybe_placement_version = if allow_placement_below_level_zero {
+            Some(&base_version)
+        } else {
+            None
+        };
         let write_table_result = DB::convert_memtable_to_file(
             db_state,
             db_fields_guard,
             Arc::clone(&immutable_memtable),
-            Some(&base_version),
+            maybe_placement_version,
             &mut change_manifest,
         );
         db_fields_guard.version_set.release_version(base_version);
@@ -623,7 +638,13 @@ impl CompactionWorker {
                         let memtable_compaction_start = Instant::now();
                         let mut db_mutex_guard = db_state.guarded_db_fields.lock();
                         if db_mutex_guard.maybe_immutable_memtable.is_some() {
-                            CompactionWorker::compact_memtable(db_state, &mut db_mutex_guard);
+                            // The outputs of this table compaction are not part of any version
+                            // yet, so the flushed file must not be placed below level 0
+                            CompactionWorker::compact_memtable(
+                                db_state,
+                                &mut db_mutex_guard,
+                                false,
+                            );
 
                             // Notify waiting writers if there are any
                             db_state.background_work_finished_signal.notify_all();
